@@ -630,6 +630,13 @@ func ConvertTypedValueToYANGType(schemaElem *sdcpb.SchemaElem, tv *sdcpb.TypedVa
 			return tv, nil
 		case "string", "identityref":
 			return tv, nil
+		case "leafref":
+			// a leafref carries values of the type of the leaf it points to
+			targetType := schemaElem.GetField().GetType().GetLeafrefTargetType()
+			if targetType == nil || targetType.GetType() == "leafref" {
+				return tv, nil
+			}
+			return ConvertTypedValueToYANGType(&sdcpb.SchemaElem{Schema: &sdcpb.SchemaElem_Field{Field: &sdcpb.LeafSchema{Type: targetType}}}, tv)
 		case "uint64", "uint32", "uint16", "uint8":
 			// Atoi is limited to the int range, uint64 values above 2^63-1 are valid
 			i, err := strconv.ParseUint(TypedValueToString(tv), 10, 64)
